@@ -52,19 +52,15 @@ theorem C05_cancel_unblocks (s : State) (hc : allCanceled s) :
     is queued for the handler mutex, the flows are cancelled (if they were not already) and the
     reservation is marked as being torn down, so nothing can attach to it any more. -/
 theorem C05_expiry (s : State) (f : Flight) (c : Nat)
-    (ht : s.timers.contains s!"invoke:{c}" = true)
-    (hf : s.flights.find? (fun f => s!"invoke:{f.caller}" == s!"invoke:{c}" && f.g0 == .selecting) = some f)
-    (hn : s!"invoke:{c}" ≠ "rtDeadline" ∧ s!"invoke:{c}" ≠ "agDeadline" ∧ s!"invoke:{c}" ≠ "grace" ∧
-          s!"invoke:{c}" ≠ "restoreHook" ∧
-          s!"invoke:{c}" ≠ "resetTail:0" ∧ s!"invoke:{c}" ≠ "resetTail:1" ∧ s!"invoke:{c}" ≠ "resetTail:2") :
-    let s' := applyOp s (.timer s!"invoke:{c}")
+    (ht : Timer.invoke c ∈ s.timers)
+    (hf : s.flights.find? (fun f => f.caller == c && f.g0 == .selecting) = some f) :
+    let s' := applyOp s (.timer (.invoke c))
     s'.queue = s.queue ++ [.reset "Timeout" 1] ∧ s'.cancelDone = true ∧
     (s'.resv.map (·.resetStarted)) = s.resv.map (fun _ => true) := by
-  obtain ⟨n1, n2, n3, n7, n4, n5, n6⟩ := hn
-  simp only [applyOp, ht, Bool.not_true, Bool.false_eq_true, ↓reduceIte]
-  simp only [beq_iff_eq, n1, n2, n3, n7, n4, n5, n6, ↓reduceIte]
-  have hf' : List.find? (fun f => s!"invoke:{f.caller}" == s!"invoke:{c}" && f.g0 == G0PC.selecting)
-      ({ s with timers := s.timers.filter (· != s!"invoke:{c}") }).flights = some f := hf
+  have ht' : s.timers.contains (Timer.invoke c) = true := by simpa using ht
+  simp only [applyOp, ht', Bool.not_true, Bool.false_eq_true, ↓reduceIte]
+  have hf' : List.find? (fun f => f.caller == c && f.g0 == G0PC.selecting)
+      ({ s with timers := s.timers.filter (· != Timer.invoke c) }).flights = some f := hf
   simp only [hf']
   refine ⟨rfl, ?_, ?_⟩
   · simp only [setFlight, requestReset, cancelFlows]
@@ -98,9 +94,9 @@ theorem C05_fresh_after (s : State) (from_ : Nat) :
 -- then (reset tail) the caller gets the timeout outcome
 example :
     let s := step 0 (step 0 {} (.invoke 0 5 "h")) .rtNext
-    let t := step 0 s (.timer "invoke:0")
-    let u := step 0 t (.timer "resetTail:1")
-    t.out = ["sup kill:runtime-1", "sup exited:runtime-1:sig9"] ∧ t.timers = ["resetTail:1"] ∧
-    u.out = ["caller0 done err=InvokeTimeout body=empty"] := by decide
+    let t := step 0 s (.timer (.invoke 0))
+    let u := step 0 t (.timer (.resetTail 1))
+    t.outs = ["sup kill:runtime-1", "sup exited:runtime-1:sig9"] ∧ t.timers = [.resetTail 1] ∧
+    u.outs = ["caller0 done err=InvokeTimeout body=empty"] := by decide
 
 end Rie.Props.C05
